@@ -123,7 +123,8 @@ TGaugedJs == /\ IsEv("gjs") /\ Exact /\ chi # None /\ Ev.n \in 1..Len(js)
 \* geometric instances: what Mesh.from_triangulation computed from the integer coordinates
 TGeom == /\ IsEv("geom") /\ Exact
          /\ \A M \in {TM} : Require("GeometryMatchesInstance", Ev.len = M.len /\ Ev.dual = M.dual /\ Ev.area = M.area)
-         /\ Tag(<<"geom", "-", "-">>) /\ UNCHANGED <<cm, cq, chi, js>>
+         /\ Ev.src \in {"code", "ref"}         \* Mesh.from_triangulation / refops.geometry (the first-principles weights)
+         /\ Tag(<<"geom", Ev.src, "-">>) /\ UNCHANGED <<cm, cq, chi, js>>
 
 \* ---- float meshes -------------------------------------------------------
 ScalarFacts == {"div_code_eq_formula", "grad_code_eq_formula", "lap_code_eq_formula", "neumann_code_eq_formula",
@@ -132,17 +133,26 @@ ScalarFacts == {"div_code_eq_formula", "grad_code_eq_formula", "lap_code_eq_form
                 "assembled_divergence_eq_formula", "assembled_mu_gradient_eq_formula",
                 "assembled_mu_laplacian_eq_formula", "assembled_boundary_eq_formula",
                 "assembled_lap_eq_div_grad", "assembled_weighted_lap_symmetric", "assembled_lap_annihilates_constants",
-                "restored_operators_eq_formula", "restored_grad_exact_on_linear", "restored_boundary_flux_integrates"}
+                "restored_operators_eq_formula", "restored_grad_exact_on_linear", "restored_boundary_flux_integrates",
+                \* weights recomputed from the raw site coordinates and triangles (refops.geometry), not read back from the mesh
+                "edge_length_eq_first_principles", "dual_length_eq_first_principles", "cell_area_eq_first_principles",
+                "boundary_edges_eq_first_principles", "operators_eq_formula_first_principles",
+                "fp_weighted_div_sums_to_zero", "fp_weighted_lap_symmetric", "fp_boundary_flux_integrates"}
 CovFacts == {"covgrad_code_eq_formula", "covlap_code_eq_formula", "covgrad_refresh_eq_formula", "covlap_refresh_eq_formula",
              "covlap_hermitian", "supercurrent_code_eq_formula",
-             "unpinned_covlap_eq_formula", "unpinned_covlap_hermitian", "pinned_covlap_eq_formula", "pinned_paths_covgrad_eq_formula"}
+             "unpinned_covlap_eq_formula", "unpinned_covlap_hermitian", "pinned_covlap_eq_formula", "pinned_paths_covgrad_eq_formula",
+             "fp_covlap_hermitian"}
 GaugeFacts == {"covgrad_covariant", "covlap_covariant", "supercurrent_invariant", "modulus_invariant"}
 Needed(group) == CASE group = "scalar" -> ScalarFacts [] group = "cov" -> CovFacts [] group = "gauge" -> GaugeFacts
 
 TFacts == /\ IsEv("facts") /\ ~Exact /\ Ev.group \in {"scalar", "cov", "gauge"}
           /\ Needed(Ev.group) \subseteq DOMAIN Ev.facts
           /\ \A k \in DOMAIN Ev.facts : Ev.facts[k] \in Nat
-          /\ (Ev.group = "scalar" => T.comps >= 1)
+          /\ (Ev.group = "scalar" => /\ T.comps >= 1
+                                      \* the first-principles weights were compared on most of the mesh, and on reflex
+                                      \* boundary sites (holes, notches) where the film has them
+                                      /\ Ev.wc * 10 >= Ev.nsites * 8
+                                      /\ (T.reflex => Ev.reflex_wc > 0))
           /\ (Ev.group = "cov" => Ev.nfixed > 0)          \* the pinned / unpinned operators had sites to pin
           /\ Require(IF \A k \in DOMAIN Ev.facts : Ev.facts[k] <= FloatTol THEN "KernelIsConstants" ELSE "FloatFactsWithinTolerance",
                      /\ \A k \in DOMAIN Ev.facts : Ev.facts[k] <= FloatTol
@@ -167,7 +177,7 @@ RequiredExact == {<<"div", "code", "build">>, <<"grad", "code", "build">>, <<"la
                     \cup {<<o, "code", p>> : o \in CovOps, p \in PinPaths}
                     \cup {<<o, "code", p>> : o \in ScalarOps \cup CovOps, p \in RestoredPaths}
 RequiredFloat == {<<"facts", "scalar", "-">>, <<"facts", "cov", "-">>, <<"facts", "gauge", "-">>}
-Complete == IF Exact THEN RequiredExact \subseteq seen /\ (T.geo => <<"geom", "-", "-">> \in seen)
+Complete == IF Exact THEN RequiredExact \subseteq seen /\ (T.geo => {<<"geom", "code", "-">>, <<"geom", "ref", "-">>} \subseteq seen)
             ELSE RequiredFloat \subseteq seen
 
 \* acceptance: the whole trace was consumed, nothing was missing, no clause failed
